@@ -525,9 +525,13 @@ func cdfGrid(f *family, r *prng.Rand, p []float64) []float64 {
 	c, s := f.center(p)
 	var xs []float64
 	if disc {
+		// the CDF of a discrete family is the step function sum_{j <= floor(x)} pmf(j):
+		// integers and non-integer abscissae between, below and above the atoms
 		for k := lo - 2; k <= hi+2; k++ {
-			xs = append(xs, k)
+			xs = append(xs, k-0.5, k-1e-9, k, k+1e-9, k+pick(r, 0.25, 0.5, 0.75))
 		}
+		xs = append(xs, lo-0.5, lo-1e-9, lo-1+1e-9, lo-r.Float64(), hi+0.5, hi+r.LogUniform(1e-6, 50), lo-r.LogUniform(1, 50))
+		sortFloats(xs)
 		return xs
 	}
 	a, b := c-12*s, c+40*s
